@@ -29,7 +29,8 @@ LEVEL_TEXT = (
 RULE = (
     "exhaustive: all strings of length<=L over a 25-symbol alphabet with one representative per lexical "
     "byte class (L=3 quick, 4 thorough, plus L=5 over a 16-symbol sub-alphabet in thorough); random: strings "
-    "of length<=64 biased to escapes/octal/backslash-EOL/#xx/hex. Each string x BUFSIZ in {1,2,3,4,7,4096}. "
+    "of length<=64 biased to escapes/octal/backslash-EOL/#xx/hex. Each string x BUFSIZ in {1,2,3,4,7,4096} and once more at BUFSIZ 4096 "
+    "through a stream whose read() delivers 1-5 bytes per call. "
     "long: 1000-9000 repetitions of one of 33 units (every white-space byte, digits, letters, delimiters, escapes, comments), bare or inside "
     "a literal string / hex string / array, between ordinary tokens, x BUFSIZ in {61,4096,65536} (a fifth of the 924 combinations per quick run, all in thorough). "
     "distinct = distinct byte strings; non-trivial = length>=2 and not all white space (a string on which at "
@@ -118,11 +119,23 @@ def _parser_class(bufsiz: int):
     return cls
 
 
-def tokenize(data: bytes, bufsiz: int):
+class ShortReadIO(io.BytesIO):
+    """A binary stream whose read(n) hands out at most `chunk` bytes per call, as raw files, pipes and sockets may: only
+    an empty result means end of data (io.RawIOBase.read)."""
+
+    def __init__(self, data: bytes, chunk: int) -> None:
+        super().__init__(data)
+        self._chunk = chunk
+
+    def read(self, n: int = -1) -> bytes:      # type: ignore[override]
+        return super().read(self._chunk if n is None or n < 0 or n > self._chunk else n)
+
+
+def tokenize(data: bytes, bufsiz: int, short_read: int = 0):
     """-> (tokens, error) where error is None or (key, detail)."""
     from pdfminer.psexceptions import PSEOF
 
-    p = _parser_class(bufsiz)(io.BytesIO(data))
+    p = _parser_class(bufsiz)(ShortReadIO(data, short_read) if short_read else io.BytesIO(data))
     toks: List[Tuple[int, Tuple[str, Any]]] = []
     limit = len(data) + 2
 
@@ -191,6 +204,16 @@ def check_string(data: bytes, bufsizes: Optional[List[int]] = None) -> List[Tupl
                  "data=%r BUFSIZ=%d -> %r but BUFSIZ=%d -> %r" % (data, ref[0], ref[1], bs, toks) if len(data) <= 200 else
                  "data=%r BUFSIZ=%d -> %d tokens but BUFSIZ=%d -> %d tokens" % (fails_data, ref[0], len(ref[1]), bs, len(toks)))
             )
+        ntok += len(toks)
+    if ref is not None and data:
+        # the same input through a stream that delivers short reads, at the default buffer size
+        k = 1 + len(data) % 5
+        toks, err = tokenize(data, 4096, short_read=k)
+        if err is not None:
+            fails.append((err[0] + ":short_reads", "short reads of %d bytes, data=%r: %s" % (k, data[:200], str(err[1])[:300])))
+        elif toks != ref[1]:
+            fails.append(("short_read_dependence", "data=%r: a stream delivering %d bytes per read() gives %d tokens, BUFSIZ=%d gave %d"
+                          % (data[:200], k, len(toks), ref[0], len(ref[1]))))
         ntok += len(toks)
     check_string.tokens = ntok  # type: ignore[attr-defined]
     return fails
